@@ -1939,8 +1939,10 @@ func (mgr *Manager) removeConverter(path string) error {
 		}
 	}
 
-	// Stop the process if it is running and delete the cache file.
-	if err := converter.Reset(); err != nil {
+	// Stop the process if it is running and delete the cache file. Views and a
+	// converter job in flight may still hold the converter, it must not cache
+	// anything from now on.
+	if err := converter.Remove(); err != nil {
 		return err
 	}
 
